@@ -1147,8 +1147,33 @@ func Run(path string, target any) {
 	if panicked != nil {
 		if re, isRuntime := panicked.(runtime.Error); isRuntime {
 			// a Go run-time fault (index out of range, makeslice, nil dereference, ...) is never a
-			// specified exit: "panics when" only permits the function's own panic statements
-			out(fmt.Sprintf("reproduced run-time fault: %v", re))
+			// specified exit: "panics when" only permits the function's own panic statements.  It
+			// reproduces the obligation only when it is the kind of fault the obligation is about; a
+			// fault of another kind usually means the replay input is incomplete (objects the model
+			// does not describe are nil), which decides nothing.
+			msg := re.Error()
+			match := false
+			switch {
+			case rf.Kind == "safety.nil":
+				match = strings.Contains(msg, "nil pointer") || strings.Contains(msg, "nil map")
+			case rf.Kind == "safety.index" || rf.Kind == "safety.slice":
+				match = strings.Contains(msg, "out of range")
+			case rf.Kind == "safety.div":
+				match = strings.Contains(msg, "divide by zero")
+			case rf.Kind == "safety.shift":
+				match = strings.Contains(msg, "negative shift")
+			case rf.Kind == "safety.make":
+				match = strings.Contains(msg, "makeslice") || strings.Contains(msg, "out of range")
+			case rf.Kind == "safety.assert":
+				match = strings.Contains(msg, "interface conversion")
+			case rf.Kind == "call-pre" || rf.Kind == "safety.nilmap":
+				match = !strings.Contains(msg, "nil pointer")
+			}
+			if match {
+				out(fmt.Sprintf("reproduced run-time fault: %v", re))
+			} else {
+				out(fmt.Sprintf("unknown the replay ended in a run-time fault that is not what the obligation is about (%v): incomplete replay input", re))
+			}
 			return
 		}
 		if mayPanic {
